@@ -27,9 +27,10 @@ func (o *OptDecl) Dashed() []string {
 }
 
 type ArgDecl struct {
-	Name  string
-	Multi bool
-	Int   bool
+	Name   string
+	Multi  bool
+	Int    bool
+	EnvSet bool // backed by a set environment variable (value "argenv")
 }
 
 type Prog struct {
